@@ -65,3 +65,5 @@ def eventLoopFields : List String := ["vm", "jobChan", "jobs", "jobCount", "canR
 def registryFields : List String := ["sync.Mutex", "native", "compiled", "srcLoader", "pathResolver", "globalFolders"]
 
 def requireModuleFields : List String := ["r", "runtime", "modules", "nativeModules", "resolved", "nodeModules"]
+
+def getCompiledSourceHoldsLock : Bool := true
